@@ -143,6 +143,7 @@ func (c18) Plan(tier string, seed int64) []mon.Workload {
 		{Name: "slice-copy", N: int64(len(c18SliceForms) * len(c18SliceWrites)), Exhaustive: true},
 		{Name: "literal-fresh", N: int64(len(c18Literals) * len(c18LitWrites) * 2), Exhaustive: true},
 		{Name: "many-locals", N: manyLocalsN(), Exhaustive: true},
+		{Name: "stale-lookup", N: staleLookupN(), Exhaustive: true},
 		{Name: "computed-keys", N: int64(len(c04KeyStmts) * len(c04KeyWraps)), Exhaustive: true},
 		{Name: "operator-trees", N: n / 2},
 		{Name: "deep-run", N: int64(len(c01DeepKinds) * len(c01DeepLevels)), Exhaustive: true},
@@ -274,6 +275,9 @@ func (c18) build(c *mon.Ctx, workload string, i int64) c18Case {
 	}
 	if workload == "many-locals" {
 		return c18Case{Stmts: manyLocalsProgram(i), Cell: ""}
+	}
+	if workload == "stale-lookup" {
+		return c18Case{Stmts: staleLookupProgram(i), Cell: "stale-lookup"}
 	}
 	if workload == "deep-run" {
 		return c18Case{Stmts: c01DeepRun(i), Cell: ""}
